@@ -9,6 +9,7 @@
 #include <xercesc/util/XMLUTF8Transcoder.hpp>
 #include <xercesc/util/UTFDataFormatException.hpp>
 #include <xercesc/util/TranscodingException.hpp>
+#include <xercesc/framework/XMLRecognizer.hpp>
 
 static XMLTranscoder* gT = 0;
 
@@ -97,6 +98,13 @@ int main(int argc, char** argv) {
         } else if (f[0] == "GC" && f.size() == 3) {
             XMLTranscoder* t = tcFor(f[1]);
             puts(!t ? "no-transcoder" : t->canTranscodeTo((unsigned)std::stoul(f[2], 0, 16)) ? "1" : "0");
+        } else if (f[0] == "P" && f.size() == 2) {
+            auto bs = hx::parseHexList(f[1]);
+            std::vector<XMLByte> raw(bs.size() + 32, 0xEE);
+            for (size_t i = 0; i < bs.size(); i++) raw[i] = (XMLByte)bs[i];
+            static const char* names[] = {"EBCDIC", "UCS_4B", "UCS_4L", "US_ASCII", "UTF_8", "UTF_16B", "UTF_16L", "XERCES_XMLCH"};
+            int e = (int)XMLRecognizer::basicEncodingProbe(raw.data(), bs.size());
+            puts(e >= 0 && e < 8 ? names[e] : "OTHER");
         } else if (f[0] == "C" && f.size() == 2) {
             puts(gT->canTranscodeTo((unsigned)std::stoul(f[1], 0, 16)) ? "1" : "0");
         } else puts("bad-op");
